@@ -185,7 +185,7 @@ def array_dcg(scores: NDArray[np.number], discount: Discount = np.log2):
     """
     scores = np.nan_to_num(scores)
     ranks = np.arange(1, len(scores) + 1)
-    disc = discount(ranks)
+    disc = np.asarray(discount(ranks), dtype=np.float64)
     np.maximum(disc, 1, out=disc)
     np.reciprocal(disc, out=disc)
     return np.dot(scores, disc)
@@ -198,7 +198,7 @@ def fixed_dcg(n: int, discount: Discount = np.log2):
     """
 
     ranks = np.arange(1, n + 1)
-    disc = discount(ranks)
+    disc = np.asarray(discount(ranks), dtype=np.float64)
     disc = np.maximum(disc, 1)
     disc = np.reciprocal(disc)
     return np.sum(disc)
